@@ -155,6 +155,10 @@ impl Game {
         }
 
         let rng = rand::thread_rng().gen_range(0..candidate_book_moves.len());
+        #[cfg(feature = "verif-hooks")]
+        let rng = crate::verif_hooks::book_choice()
+            .map(|choice| choice % candidate_book_moves.len())
+            .unwrap_or(rng);
         let (book_move, _line_name) = &candidate_book_moves[rng];
         let from_square = book_move.from_square();
         let to_square = book_move.to_square();
